@@ -28,7 +28,11 @@ Within(ss, bound) == \A j \in DOMAIN ss : \A i \in DOMAIN ss[j] : AbsI(ss[j][i])
 -----------------------------------------------------------------------------
 (* vector / column events *)
 VecInDomain(e) ==
-    /\ ValidFam(e)
+    /\ IF e.op = "l1arr"
+       THEN /\ e.p = 0 /\ e.k = 0 /\ e.dec = FALSE /\ Len(e.t) = Len(e.cols)
+            /\ \A j \in 1..Len(e.cols) : ValidArr(e.cols[j], e.t[j], e.q)
+            /\ DOMAIN e.runs = {"direct"}          \* the keyword dispatch takes per-mode lists, not arrays
+       ELSE ValidFam(e)
     /\ e.sc \in {-3, 0, 3}
     /\ Len(e.cols) \in 1..3
     /\ \A j \in 1..Len(e.cols) : ValidVec(e.cols[j]) /\ Len(e.cols[j]) = Len(e.cols[1]) /\ ~Degenerate(e.op, e.cols[j])
@@ -37,8 +41,10 @@ VecInDomain(e) ==
 
 \* exact answers allowed for column v in run r (the dispatch of "monotonicity" is documented as
 \* decreasing in two docstrings and implemented as increasing: either projection is accepted there)
-AllowedRun(e, r, v) ==
+AllowedRun(e, r, j) ==
+    LET v == e.cols[j] IN
     IF e.op = "mono" /\ r = "dispatch" THEN {Iso(v, FALSE), Iso(v, TRUE)}
+    ELSE IF e.op = "l1arr" THEN {SoftArr(v, e.t[j], e.q)}
     ELSE Allowed(e.op, e.p, e.q, e.k, e.dec, v)
 
 CloseTo(y, x) == \A i \in 1..Len(y) : AbsI(y[i] * x.den - x.num[i] * S) <= ValTol * x.den
@@ -60,7 +66,7 @@ NormSparseApprox4(y4, v, k) ==
 ValueOK(e, r, j) ==
     LET v == e.cols[j]
         y == e.runs[r].out[j] IN
-    IF Rational(e.op, e.k, v) THEN \E x \in AllowedRun(e, r, v) : CloseTo(y, x)
+    IF Rational(e.op, e.k, v) THEN \E x \in AllowedRun(e, r, j) : CloseTo(y, x)
     ELSE IF e.op = "l2" THEN L2BlockApprox4(e.runs[r].out4[j], v, e.p, e.q)
     ELSE NormSparseApprox4(e.runs[r].out4[j], v, e.k)
 
